@@ -35,4 +35,6 @@ WorkBound == [][ last'.op \in {"Get", "Put", "Remove"} => WorkOK("rb", 0, last'.
 RECURSIVE CanonK(_, _)
 CanonK(t, x) == IF x = Nil THEN <<>> ELSE <<t.n[x].key, t.n[x].color, CanonK(t, Left(t, x)), CanonK(t, Right(t, x))>>
 Fid == PrintT("S|" \o ToJson(CanonK(T, T.root)))      \* fidelity dump (always TRUE)
+\* every generated transition of the model as <<from, op, key, to>> (fidelity of the EDGES; always TRUE)
+FidEdge == PrintT("E|" \o ToJson(<<CanonK(T, T.root), last'.op, last'.k, CanonK(T', T'.root)>>))
 =============================================================================
